@@ -12,7 +12,7 @@ import pulsarbat as pb
 from harness.common import qlit, zlit, listlit, float_lit
 from harness import exact as X
 
-VFILES = ['Lib/PySlice.v', 'Lib/Dft.v', 'Lib/DftC.v', 'Lib/F64.v', 'Model/Shift.v', 'Proofs/ShiftProofs.v', 'Proofs/ShiftC.v', 'Proofs/SnippetC.v', 'Props/C03.v']
+VFILES = ['Lib/PySlice.v', 'Lib/Dft.v', 'Lib/DftC.v', 'Lib/F64.v', 'Model/Shift.v', 'Proofs/ShiftProofs.v', 'Gen/GenShift.v', 'Proofs/ShiftGen.v', 'Proofs/ShiftC.v', 'Proofs/SnippetC.v', 'Props/C03.v']
 REAL_AX = {'ClassicalDedekindReals.sig_forall_dec', 'ClassicalDedekindReals.sig_not_dec',
            'FunctionalExtensionality.functional_extensionality_dep', 'Classical_Prop.classic'}
 
